@@ -74,13 +74,32 @@ class DataCollection(HubListener):
             self.extend(data)
             return
 
+        self.insert(len(self._data), data)
+
+    def insert(self, index, data):
+        """
+        Add a new dataset to this collection at a given position.
+
+        This behaves like :meth:`append` (in particular it emits a
+        DataCollectionAddMessage and does nothing if the dataset is already
+        in the collection), except that the dataset is placed before the
+        dataset currently at position ``index``, as for `list.insert`.
+
+        Parameters
+        ----------
+        index : int
+            The position at which to insert the dataset.
+        data : :class:`~glue.core.data.BaseCartesianData`
+            The dataset to add.
+        """
+
         if data in self:
             return
 
         if not isinstance(data, BaseCartesianData):
             raise TypeError("Only BaseCartesianData subclasses can be used at this time")
 
-        self._data.append(data)
+        self._data.insert(index, data)
 
         if self.hub:
             data.register_to_hub(self.hub)
